@@ -166,7 +166,7 @@ def rand_inputs(rng, ns):
             elif r < 0.9:
                 out[name] = {}
             else:
-                out[name] = rng.choice([5, None, 's', '@A'])
+                out[name] = rng.choice([5, None, 's', '@A', '', [], 0])
     # undeclared keys
     r = rng.random()
     if r < 0.35:
@@ -310,8 +310,8 @@ def _leaves_ok(x, vt):
 
 
 def model_valid_ns(attrs, children, values, stats, top=False, depth=0):
-    if not values:
-        values = {}
+    if values is None or (isinstance(values, tuple) and not values):
+        values = {}  # None and the UNSPECIFIED marker () stand for "nothing given"
     if not isinstance(values, dict):
         raise Reject('not a mapping')
     required = attrs.get('required', True)
